@@ -2,6 +2,7 @@
 package c03
 
 import (
+	"crypto/sha256"
 	"encoding/json"
 	"fmt"
 	"time"
@@ -586,6 +587,39 @@ func craftedOutOfRange(r *fw.Run) {
 		}
 	}
 	r.Bounds["crafted_out_of_range_paths"] = n
+	// consistency with an empty or negative old tree: "old size" 0 and below, with the hashes a lenient
+	// implementation might special-case (SHA-256 of nothing, the zero hash, the new root itself), short proofs
+	{
+		empty := tlog.Hash(sha256.Sum256(nil))
+		var zero tlog.Hash
+		for _, t := range []int64{1, 2, 7, 8, 1 << 40, maxInt} {
+			for _, old := range []int64{0, -1, minInt} {
+				var th tlog.Hash
+				th[3] = 9
+				for _, oh := range []tlog.Hash{empty, zero, th, leaf} {
+					for _, root := range []tlog.Hash{th, zero, empty} {
+						for _, p := range [][]tlog.Hash{nil, {}, {th}, {empty}, {th, oh}} {
+							l.States++
+							l.Execs++
+							var err error
+							pan := ""
+							func() {
+								defer func() {
+									if e := recover(); e != nil {
+										pan = fmt.Sprint(e)
+									}
+								}()
+								err = tlog.CheckTree(tlog.TreeProof(p), t, root, old, oh)
+							}()
+							if pan != "" || err == nil {
+								r.Violation(fmt.Sprintf("crafted-tree:%d:%d:%x:%x:%d", t, old, oh[:2], root[:2], len(p)), fmt.Sprintf("CheckTree(new size %d, old size %d) with a %d-hash proof: err=%v panic=%q; an old tree of size <= 0 must be refused", t, old, len(p), err, pan), mk("tree", 0, 0, p, t, root, old, oh, "old size <= 0"))
+							}
+						}
+					}
+				}
+			}
+		}
+	}
 }
 
 // sentinelWorld is a second closed world built around the zero hash: base hashes {zero, a, b}, every
